@@ -145,25 +145,6 @@ Section XmlDeser.
         end
     end.
 
-  (** the attributes of a child element looked up in the PARENT's members (inner loop of the first
-      loop of complex_from_element) *)
-  Fixpoint child_attrs (fs : list field) (attrs : list (text * text)) : res unit :=
-    match attrs with
-    | [] => Ret tt
-    | (k, v) :: r =>
-        match find_field k fs with
-        | None => child_attrs fs r
-        | Some f =>
-            guard_skip g_xml_submember_attr (match f_kind f with KAttr => false | KElem => true end)
-              (child_attrs fs r)
-              (Raise EAttributeError [])                 (* submember.type *)
-              (match f_ty f with
-               | TLeaf lk => let! _ := attr_from_unicode lk v in child_attrs fs r
-               | _ => Raise ETypeError []
-               end)
-        end
-    end.
-
   (** the frequency check at the end of complex_from_element *)
   Fixpoint freq_check (fs : list field) (seen : list text) : res unit :=
     match fs with
@@ -285,7 +266,7 @@ Section XmlDeser.
                                (guard_raise g_xml_entity true (Raise EAttributeError []) (go r))
                          | XO _ _ =>
                              guard_skip g_xml_skip_comment_pi true (go r) (Raise EAttributeError []) (go r)
-                         | XE tag _ cattrs _ _ =>
+                         | XE tag _ _ _ _ =>
                              let key := local_name tag in
                              match find_field key fs with
                              | None => let! names := go r in Ret (key :: names)
@@ -293,7 +274,6 @@ Section XmlDeser.
                                  let t := match f_kind f, f_ty f with
                                           | KAttr, TLeaf lk => TAttr lk | _, t => t end in
                                  let! _ := from_element k t (f_nillable f) in
-                                 let! _ := child_attrs fs cattrs in
                                  let! names := go r in Ret (key :: names)
                              end
                          end
